@@ -472,6 +472,15 @@ def F46(fil):
     return any(o != [1] for o in occupied), f"pulse every 10 samples folded at period 10*tsamp over {n} samples: occupied bins per sub-integration {occupied}"
 
 
+def F47(fil):
+    from sigpyproc.core import kernels
+    n = 1_700_000
+    x = (0.5 * np.arange(n) + 3.0).astype(np.float64)
+    res = kernels.detrend_1d(x)
+    err = float(np.abs(res).max())
+    return err > 1e-3, f"detrend_1d of an exact straight line of {n} samples: max |residual| = {err:.3g}"
+
+
 ALL = {k: v for k, v in globals().items() if k.startswith("F") and k[1:].isdigit()}
 
 
